@@ -257,6 +257,13 @@ def run(ctx):
     ctx.require_ok("MC FakeTrxMC power mode (power-on guard, version known)", r)
     r = tlc.run("FakeTrxMC.tla", ctx.pick("MC_FakeTrxFlowQ.cfg", "MC_FakeTrxFlow.cfg"), workers=8, timeout=3000)
     ctx.require_ok("MC FakeTrxMC flow mode (SETFORMAT / FAKE_DROP / RFMUTE with traffic)", r)
+    # growth: trxcon's TRXC client in a closed loop with a transceiver over a lossy / duplicating channel
+    r = tlc.run("TrxcLink.tla", ctx.pick("MC_TrxcLink.cfg", "MC_TrxcLinkT.cfg"), workers=8, timeout=3000)
+    ctx.require_ok("MC TrxcLink (stop-and-wait, <= 3 retransmissions, powered only when tuned, queue order) over loss/duplication", r)
+    if ctx.thorough:
+        r = tlc.run("TrxcLink.tla", "MC_TrxcLinkHazard.cfg", workers=4, timeout=1200)
+        ctx.add_tlc("MC TrxcLinkHazard (documented protocol hazards, expected to be violated)", r)
+        ctx.extra["documented_hazard_reproduced"] = (r.violation or {}).get("name")
     traces = grammar_sessions(ctx, ctx.pick(1, 12))
     traces += history_sessions(ctx, ctx.pick(80, 2500))
     traces += sim_sessions(ctx, ctx.pick(40, 800))
